@@ -34,6 +34,9 @@ type World struct {
 	cfByPkg   map[string]*ContractFile
 	files     []*ContractFile
 	loadErrs  []string
+	ghostComps  map[string]GhostComp
+	copyBuiltin bool
+	derived     *derivedInfo
 }
 
 type axiomDecl struct {
@@ -147,6 +150,12 @@ func (w *World) addFile(cf *ContractFile) {
 		w.axioms = append(w.axioms, axiomDecl{ax, cf})
 	}
 	w.monitors = append(w.monitors, cf.Monitors...)
+	if w.ghostComps == nil {
+		w.ghostComps = map[string]GhostComp{}
+	}
+	for _, g := range cf.GhostComps {
+		w.ghostComps[g.Name] = g
+	}
 	w.heapPure = append(w.heapPure, cf.PureCalls...)
 	for _, g := range cf.Ghosts {
 		t := g.Owner
